@@ -119,7 +119,7 @@ func (*c14Prop) Plans(tier string) []Plan {
 	}
 }
 
-var c14Kinds = []string{"json", "json", "arith", "arith", "pb", "pair", "tokens", "tokens", "grammar", "grammar"}
+var c14Kinds = []string{"json", "json", "arith", "arith", "pb", "pair", "mutual", "tokens", "tokens", "grammar", "grammar"}
 
 func genGraphSpec(r *Rand) GraphSpec {
 	if r.Chance(1, 40) {
